@@ -946,7 +946,9 @@ impl<'a> Ctx<'a> {
                     // a negotiation started by the remote user may be in progress without the local
                     // user knowing (its handshake is still being read): the premise "no negotiation
                     // in progress" then does not hold, so such requests are not counted as idle
-                    let remote_recent = self.log.iter().any(|q| q.node == j && q.t <= r.t && q.t + 30_000_000_000 >= r.t && matches!(&q.k, K::COpen { peer, res } if *peer == i && res == "ok"));
+                    // (a process stall on either side stretches "recent" by its length)
+                    let stretch: u64 = self.freezes.iter().filter(|f| (f.0 == i || f.0 == j) && f.1 <= r.t).map(|f| f.2 - f.1).max().unwrap_or(0);
+                    let remote_recent = self.log.iter().any(|q| q.node == j && q.t <= r.t && q.t + 30_000_000_000 + stretch >= r.t && matches!(&q.k, K::COpen { peer, res } if *peer == i && res == "ok"));
                     let idle = !open && open_credit == 0 && accept_credit == 0 && !pending_validation && !remote_recent;
                     if idle {
                         idle_requests.push((r.t, false));
